@@ -1,5 +1,6 @@
 import GojaModel.C01.EmitProof
 import GojaModel.C01.StmtProof
+import GojaModel.C01.RetExact
 import GojaModel.C01.Flat
 import GojaModel.C01.Scope
 /-!
@@ -92,6 +93,32 @@ theorem emitStmt_flat_sound (cfg : Cfg) (s : Stmt) (nr : Bool) (h : Nat)
     (hr : RunIn code lo (lo + (emitS cfg s nr).len) ⟨lo, h, vs, fs⟩ t) :
     Within code lo (emitS cfg s nr).len h h vs fs t :=
   flat_sound (emitS_ht cfg s nr h) code lo vs fs hp t hr
+
+/-! ### (a) function-level leaks -/
+
+/-- Inside the modelled fragment a function cannot leak operands towards its `ret`s: every statement entered with `h`
+operands (the function body's entry height — statements are height-neutral, `emitStmt_height`) satisfies the height
+judgement in which every executed `ret` sits at exactly `h + 1`: the return value and nothing else above the frame's
+locals.  (`verify` cannot see such a leak on real bytecode: `ret` resets sp.) -/
+theorem ret_height_exact (cfg : Cfg) (s : Stmt) (nr : Bool) (h : Nat) : HasHtR (h + 1) (emitS cfg s nr) h h :=
+  emitS_htR cfg s nr h
+
+/-- the same for a whole function / program body -/
+theorem ret_height_exact_body (cfg : Cfg) (ss : Stmts) (nr : Bool) (h : Nat) : HasHtR (h + 1) (emitBody cfg ss nr) h h :=
+  emitS_htR cfg (.block ss) nr h
+
+/-- … and the executable walk over the code (following `Code.height`) finds every live `ret` at height `h + 1`. -/
+theorem ret_height_exact_exec (cfg : Cfg) (ss : Stmts) (nr : Bool) (h : Nat) :
+    (emitBody cfg ss nr).retsAt (h + 1) (.live h) = true :=
+  (emitS_htR cfg (.block ss) nr h).sound
+
+/-- the judgement is not vacuous: `ret` is recognised, a throw is not, and a body that leaves one extra operand below the
+return value (`loadVal; loadVal; ret`) is refused although its plain height judgement holds (control never leaves it). -/
+theorem ret_height_witness :
+    iRet.isRet = true ∧ iThrow.isRet = false ∧
+    (Code.seq (.ins iLoadVal) (.seq (.ins iLoadVal) (.ins iRet))).retsAt 1 (.live 0) = false ∧
+    (Code.seq (.ins iLoadVal) (.seq (.ins iLoadVal) (.ins iRet))).height (.live 0) = some .dead ∧
+    (Code.seq (.ins iLoadVal) (.ins iRet)).retsAt 1 (.live 0) = true := by decide
 
 /-- Regression lemma about the mechanism BEFORE fix 5a4962f (`emitBindingSetPrefix`): `f = 5` with `f` the sloppy
 function-expression name and the value discarded — right operand followed by the old `emitSetP` — ended one operand
